@@ -5,7 +5,8 @@
      711d9ea  rsplitspace pre-sized its result from max   -> old_rsplitspace_cap
      0c74125  rsplit = Split + re-join of the left pieces  -> old_rsplit
      decec7a, 98ffc3a  asIndex / slice step used AsInt32   -> old_slice_impl, old_sub_range
-     6eba627  repeat rejected every count outside int32    -> old_repeat_impl *)
+     6eba627  repeat rejected every count outside int32    -> old_repeat_impl
+     5574fcc  decimal (string.format field numbers) wrapped -> old_decimal, old_string_format *)
 From Coq Require Import ZArith NArith List Bool Lia.
 From SV Require Import Common.GoInt C13.Base C13.Index C13.Str C13.Seq C13.Spec.
 Import ListNotations.
@@ -125,3 +126,152 @@ Definition old_repeat_impl {A} (xs : list A) (n : Z) : outcome (list A) :=
 Lemma old_repeat_refuted :
   exists (xs : list N) n, old_repeat_impl xs n <> of_spec (repeat_spec xs n).
 Proof. exists [97; 98]%N, (- 2^40). vm_compute. discriminate. Qed.
+
+(* ---- string.format before 5574fcc.  decimal accumulated a numeric field
+   name in an int and rejected only a NEGATIVE intermediate value:
+       x = x*10 + int(digit)
+       if x < 0 { return 0, false } // underflow
+   so a name that wraps past 2^64 to a small value was used as that index
+   ("{18446744073709551616}".format("a") returned "a"), and a name in
+   [2^63, ...) that wraps negative fell through to the keyword branch.
+   The rest of string_format is unchanged: old_select_arg / old_format_loop
+   are Format.select_arg / Format.format_loop with old_decimal in place of
+   decimal (frozen copies).  FormatSpec.format_spec is the specification the
+   current code is proved against (Properties.format_correct). *)
+From SV Require Import C13.FormatBase C13.Format C13.FormatSpec.
+
+Fixpoint old_decimal_loop (s : fbytes) (x : Z) : option Z :=
+  match s with
+  | [] => Some x
+  | c :: t =>
+      let digit := wrapu8 (Z.of_N c - 48) in
+      if digit >? 9 then None
+      else
+        let x' := wrap64 (x * 10 + digit) in
+        if x' <? 0 then None else old_decimal_loop t x'
+  end.
+Definition old_decimal (s : fbytes) : option Z := old_decimal_loop s 0.
+
+Section OldFormat.
+  Variable V : Type.
+  Variables str_of repr_of : V -> fbytes.
+
+  Definition old_select_arg (name : fbytes) (args : list V) (kwargs : list (fbytes * V))
+             (st : fstate) : sel_res V :=
+    match name with
+    | [] =>
+        if st_manual st then SelErr EManualToAuto
+        else arg_at V args (st_index st)
+                    {| st_auto := true; st_manual := st_manual st; st_index := st_index st + 1 |}
+    | _ :: _ =>
+        match old_decimal name with
+        | Some num =>
+            if st_auto st then SelErr EAutoToManual
+            else arg_at V args num {| st_auto := st_auto st; st_manual := true; st_index := st_index st |}
+        | None =>
+            match find_kwarg V kwargs name with
+            | Some v => SelOk v st
+            | None =>
+                if contains_byte name ch_dot then SelErr EAttrSyntax
+                else if contains_byte name ch_lbrack then SelErr EElemSyntax
+                else if contains_byte name ch_open then SelErr ENested
+                else SelErr EKeyword
+            end
+        end
+    end.
+
+  Fixpoint old_format_loop (fuel : nat) (args : list V) (kwargs : list (fbytes * V))
+           (format : fbytes) (st : fstate) (buf : fbytes) : fres :=
+    match fuel with
+    | O => FOutOfFuel
+    | S fuel' =>
+        let i := index_byte format ch_open in
+        match (if 0 <=? i then sl_to format i else Some format) with
+        | None => FPanic
+        | Some literal =>
+            match literal_loop (S (length literal)) literal buf with
+            | FOk buf1 =>
+                if i <? 0 then FOk buf1
+                else
+                  let esc :=
+                      if i + 1 <? flen format then
+                        match byte_at format (i + 1) with
+                        | Some c => Some (N.eqb c ch_open)
+                        | None => None
+                        end
+                      else Some false in
+                  match esc with
+                  | None => FPanic
+                  | Some true =>
+                      match sl_from format (i + 2) with
+                      | Some format' => old_format_loop fuel' args kwargs format' st (buf1 ++ [ch_open])
+                      | None => FPanic
+                      end
+                  | Some false =>
+                      match sl_from format (i + 1) with
+                      | None => FPanic
+                      | Some format1 =>
+                          let i2 := index_byte format1 ch_close in
+                          if i2 <? 0 then FErr EUnmatchedOpen
+                          else
+                            match sl_to format1 i2, sl_from format1 (i2 + 1) with
+                            | Some field, Some format2 =>
+                                match split_field field with
+                                | None => FPanic
+                                | Some (name, conv, spec) =>
+                                    match old_select_arg name args kwargs st with
+                                    | SelPanic => FPanic
+                                    | SelErr e => FErr e
+                                    | SelOk arg st' =>
+                                        match spec with
+                                        | _ :: _ => FErr ESpecUnsupported
+                                        | [] =>
+                                            if bytes_eqb conv [ch_s]
+                                            then old_format_loop fuel' args kwargs format2 st' (buf1 ++ str_of arg)
+                                            else if bytes_eqb conv [ch_r]
+                                            then old_format_loop fuel' args kwargs format2 st' (buf1 ++ repr_of arg)
+                                            else FErr EConversion
+                                        end
+                                    end
+                                end
+                            | _, _ => FPanic
+                            end
+                      end
+                  end
+            | r => r
+            end
+        end
+    end.
+
+  Definition old_string_format (format : fbytes) (args : list V) (kwargs : list (fbytes * V)) : fres :=
+    old_format_loop (S (length format)) args kwargs format fstate0 [].
+End OldFormat.
+
+(* "{18446744073709551616}" and "{9223372036854775808}" *)
+Definition wrap_witness : fbytes :=
+  [123; 49; 56; 52; 52; 54; 55; 52; 52; 48; 55; 51; 55; 48; 57; 53; 53; 49; 54; 49; 54; 125]%N.
+Definition keyword_witness : fbytes :=
+  [123; 57; 50; 50; 51; 51; 55; 50; 48; 51; 54; 56; 53; 52; 55; 55; 53; 56; 48; 56; 125]%N.
+
+(* values are their own text here; one positional argument "a" *)
+Lemma old_format_refuted :
+  exists (template : fbytes) (args : list fbytes) (kwargs : list (fbytes * fbytes)),
+    is_bytes template = true /\ Z.of_nat (length args) <= max_int64 /\
+    old_string_format fbytes (fun v => v) (fun v => v) template args kwargs = FOk [97%N] /\
+    format_spec fbytes (fun v => v) (fun v => v) template args kwargs = FErr EIndexRange /\
+    string_format fbytes (fun v => v) (fun v => v) template args kwargs = FErr EIndexRange.
+Proof.
+  exists wrap_witness, [[97%N]], []. vm_compute. repeat split; intro; discriminate.
+Qed.
+
+(* the numeric name 2^63 was looked up among the keyword arguments *)
+Lemma old_format_number_as_keyword :
+  exists (template : fbytes) (kwargs : list (fbytes * fbytes)),
+    old_string_format fbytes (fun v => v) (fun v => v) template [] kwargs = FOk [75%N] /\
+    format_spec fbytes (fun v => v) (fun v => v) template [] kwargs = FErr EIndexRange /\
+    string_format fbytes (fun v => v) (fun v => v) template [] kwargs = FErr EIndexRange.
+Proof.
+  exists keyword_witness,
+         [([57; 50; 50; 51; 51; 55; 50; 48; 51; 54; 56; 53; 52; 55; 55; 53; 56; 48; 56]%N, [75%N])].
+  vm_compute. repeat split.
+Qed.
